@@ -83,6 +83,7 @@ spec fn packed(v: Seq<u64>, w: int) -> Seq<u8> { Seq::new(packed_len(v.len() as 
 // reading: the value made of the w stream bits from position p
 spec fn bytes_bit(b: Seq<u8>, k: int) -> bool { 0 <= k < 8 * b.len() && (b[k / 8] >> ((7 - k % 8) as u8)) & 1 == 1 }
 spec fn bytes_bit_at(b: Seq<u8>, p: int, j: int) -> bool { bytes_bit(b, p + j) }
+#[verifier::opaque]
 spec fn stream_val(b: Seq<u8>, p: int, w: int) -> u64 decreases w { if w <= 0 { 0 } else { (2 * stream_val(b, p, w - 1) + b2u(bytes_bit(b, p + w - 1))) as u64 } }
 spec fn unpacked(b: Seq<u8>, w: int, n: nat) -> Seq<u64> { Seq::new(n, |i: int| stream_val(b, i * w, w)) }
 spec fn fits(v: Seq<u64>, w: int) -> bool { forall|i: int| 0 <= i < v.len() ==> #[trigger] v[i] >> (w as u64) == 0 }
@@ -120,6 +121,7 @@ proof fn lemma_stream_val(b: Seq<u8>, p: int, w: int, x: u64)
   ensures stream_val(b, p, w) == x
   decreases w
 {
+    reveal_with_fuel(stream_val, 2);
     if w == 0 {
         assert(x >> 0u64 == 0 ==> x == 0) by (bit_vector);
     } else {
@@ -670,6 +672,7 @@ spec fn le_count_val(p: Seq<u8>, off: int, k: nat) -> usize decreases k { if k =
 spec fn psum(d: Seq<u64>, k: nat) -> int decreases k { if k == 0 { 0 } else { psum(d, (k - 1) as nat) + d[k - 1] } }
 spec fn undelta(d: Seq<u64>) -> Seq<u64> { Seq::new(d.len(), |i: int| psum(d, (i + 1) as nat) as u64) }
 spec fn v4_payload_len(n: int, w: int) -> int { w * (n / 8) + packed_len(n % 8, w) }
+#[verifier::opaque]
 spec fn dec_v4_delta(q: Seq<u8>, w: int, n: int, i: int) -> u64 {
     if i < 8 * (n / 8) { unpacked(q.subrange(w * (i / 8), w * (i / 8) + w), w, 8)[i % 8] }
     else { unpacked(q.subrange(w * (n / 8), v4_payload_len(n, w)), w, (n % 8) as nat)[i - 8 * (n / 8)] }
@@ -705,6 +708,72 @@ proof fn lemma_dec_v4_some(p: Seq<u8>, pre_longs: u8, sh: u16)
       &&& x.entries == undelta(d) && x.seed_hash == sh && x.ordered == flag_ordered(p[2]) && !x.empty
   })
 { reveal(decode_spec_v4); }
+
+// per-iteration facts of the block loop / the tail of a version-4 parser (kept out of the loop bodies: nonlinear)
+proof fn lemma_v4_block_short(q: Seq<u8>, w: int, n: int, i: int)
+  requires 0 <= w, 0 <= i, i % 8 == 0, i + 8 <= n, q.len() < w * (i / 8) + w
+  ensures q.len() < v4_payload_len(n, w)
+{
+    let b = i / 8; let nb = n / 8;
+    assert(w * b + w == w * (b + 1)) by (nonlinear_arith);
+    assert(w * (b + 1) <= w * nb) by (nonlinear_arith) requires b + 1 <= nb, 0 <= w;
+    assert(packed_len(n % 8, w) >= 0) by (nonlinear_arith) requires 0 <= w, 0 <= n % 8, packed_len(n % 8, w) == ((n % 8) * w + 7) / 8;
+}
+proof fn lemma_v4_block_step(q: Seq<u8>, w: int, n: int, i: int)
+  requires 0 <= w, 0 <= i, i % 8 == 0, i + 8 <= n, w * (i / 8) + w <= q.len(), w * (i / 8) >= 0
+  ensures ({ let blk = q.skip(w * (i / 8)).take(w);
+    &&& q.skip(w * (i / 8)).skip(w) == q.skip(w * ((i + 8) / 8))
+    &&& w * ((i + 8) / 8) == w * (i / 8) + w
+    &&& forall|j: int| i <= j < i + 8 ==> #[trigger] dec_v4_delta(q, w, n, j) == unpacked(blk, w, 8)[j - i] })
+{
+    reveal(dec_v4_delta);
+    let b = i / 8;
+    assert((i + 8) / 8 == b + 1);
+    assert(w * b + w == w * (b + 1)) by (nonlinear_arith);
+    assert(q.skip(w * b).skip(w) =~= q.skip(w * (b + 1)));
+    assert(q.skip(w * b).take(w) =~= q.subrange(w * b, w * b + w));
+    assert forall|j: int| i <= j < i + 8 implies #[trigger] dec_v4_delta(q, w, n, j) == unpacked(q.skip(w * b).take(w), w, 8)[j - i] by {
+        assert(j / 8 == b && j % 8 == j - i && j < 8 * (n / 8));
+    }
+}
+proof fn lemma_v4_tail(q: Seq<u8>, w: int, n: int)
+  requires 0 <= w, 0 <= n, n % 8 != 0, w * (n / 8) >= 0, w * (n / 8) <= q.len()
+  ensures
+    q.len() - w * (n / 8) < packed_len(n % 8, w) ==> q.len() < v4_payload_len(n, w),
+    q.len() - w * (n / 8) >= packed_len(n % 8, w) ==> ({ let tl = q.skip(w * (n / 8)).take(packed_len(n % 8, w));
+        forall|j: int| 8 * (n / 8) <= j < n ==> #[trigger] dec_v4_delta(q, w, n, j) == stream_val(tl, (j - 8 * (n / 8)) * w, w) }),
+{
+    reveal(dec_v4_delta);
+    if q.len() - w * (n / 8) >= packed_len(n % 8, w) {
+        let tl = q.skip(w * (n / 8)).take(packed_len(n % 8, w));
+        assert(packed_len(n % 8, w) >= 0) by (nonlinear_arith) requires 0 <= w, 0 <= n % 8, packed_len(n % 8, w) == ((n % 8) * w + 7) / 8;
+        assert(tl =~= q.subrange(w * (n / 8), v4_payload_len(n, w)));
+    }
+}
+
+// the in-place prefix-sum loop of a version-4 parser: e[0..k] already summed, e[k..] still the deltas d
+#[verifier::opaque]
+spec fn undelta_state(e: Seq<u64>, d: Seq<u64>, k: int) -> bool {
+    e.len() == d.len() && (forall|j: int| k <= j < e.len() ==> e[j] == #[trigger] d[j]) && (forall|j: int| 0 <= j < k ==> #[trigger] e[j] == psum(d, (j + 1) as nat))
+}
+proof fn lemma_undelta_init(e: Seq<u64>, d: Seq<u64>)
+  requires e.len() == d.len(), forall|j: int| 0 <= j < e.len() ==> e[j] == #[trigger] d[j]
+  ensures undelta_state(e, d, 0)
+{ reveal(undelta_state); }
+proof fn lemma_undelta_step(before: Seq<u64>, after: Seq<u64>, d: Seq<u64>, k: int, prev: u64)
+  requires undelta_state(before, d, k), 0 <= k < before.len(), prev == psum(d, k as nat), before[k] + prev <= u64::MAX,
+    after == before.update(k, (before[k] + prev) as u64)
+  ensures undelta_state(after, d, k + 1), after[k] == psum(d, (k + 1) as nat), undelta(d)[k] == after[k]
+{
+    reveal(undelta_state);
+    assert(before[k] == d[k]);
+    assert forall|j: int| 0 <= j < k + 1 implies #[trigger] after[j] == psum(d, (j + 1) as nat) by { if j < k { assert(after[j] == before[j]); } }
+    assert forall|j: int| k + 1 <= j < after.len() implies after[j] == #[trigger] d[j] by { assert(after[j] == before[j]); }
+}
+proof fn lemma_undelta_done(e: Seq<u64>, d: Seq<u64>)
+  requires undelta_state(e, d, e.len() as int)
+  ensures e =~= undelta(d)
+{ reveal(undelta_state); }
 
 // well-formed abstract states (what ThetaSketch::compact produces, and what every other operation relies on)
 spec fn wf_img(x: ThetaImg) -> bool {
@@ -786,6 +855,144 @@ proof fn lemma_theta_v3_roundtrip(x: ThetaImg, sh: u16)
             assert(p.subrange(13, 21) =~= le64_bytes(x.theta));
             assert(p.skip(21) =~= enc_u64s(x.entries));
         }
+    }
+}
+
+// ---------------------------------------------------------------------------------------------------------------------
+// C11 for serial version 4 at spec level
+// ---------------------------------------------------------------------------------------------------------------------
+proof fn lemma_packed_block_len(v: Seq<u64>, w: int) requires v.len() == 8, 0 <= w ensures packed(v, w).len() == w {
+    assert(packed_len(8, w) == w);
+}
+proof fn lemma_enc_blocks_len(d: Seq<u64>, w: int, nb: nat)
+  requires 0 <= w, 8 * nb <= d.len()
+  ensures enc_blocks(d, w, nb).len() == w * nb
+  decreases nb
+{
+    if nb > 0 {
+        lemma_enc_blocks_len(d, w, (nb - 1) as nat);
+        lemma_packed_block_len(d.subrange(8 * (nb - 1), 8 * (nb as int)), w);
+        assert(w * (nb - 1) + w == w * nb) by (nonlinear_arith);
+    } else {
+        assert(w * 0 == 0);
+    }
+}
+proof fn lemma_enc_blocks_sub(d: Seq<u64>, w: int, nb: nat, b: int)
+  requires 0 <= w, 8 * nb <= d.len(), 0 <= b < nb
+  ensures w * b >= 0, w * b + w <= enc_blocks(d, w, nb).len(), enc_blocks(d, w, nb).subrange(w * b, w * b + w) == packed(d.subrange(8 * b, 8 * b + 8), w)
+  decreases nb
+{
+    lemma_enc_blocks_len(d, w, nb);
+    lemma_enc_blocks_len(d, w, (nb - 1) as nat);
+    let last = packed(d.subrange(8 * (nb - 1), 8 * (nb as int)), w);
+    lemma_packed_block_len(d.subrange(8 * (nb - 1), 8 * (nb as int)), w);
+    assert(w * (nb - 1) + w == w * nb) by (nonlinear_arith);
+    assert(w * b >= 0 && w * b + w <= w * nb) by (nonlinear_arith) requires 0 <= w, 0 <= b < nb;
+    if b == nb - 1 {
+        assert(enc_blocks(d, w, nb).subrange(w * b, w * b + w) =~= last);
+    } else {
+        lemma_enc_blocks_sub(d, w, (nb - 1) as nat, b);
+        assert(w * b + w <= w * (nb - 1)) by (nonlinear_arith) requires 0 <= w, 0 <= b < nb - 1;
+        assert(enc_blocks(d, w, nb).subrange(w * b, w * b + w) =~= enc_blocks(d, w, (nb - 1) as nat).subrange(w * b, w * b + w));
+    }
+}
+proof fn lemma_fits_sub(d: Seq<u64>, w: int, lo: int, hi: int) requires fits(d, w), 0 <= lo <= hi <= d.len() ensures fits(d.subrange(lo, hi), w) {
+    assert forall|i: int| 0 <= i < hi - lo implies #[trigger] d.subrange(lo, hi)[i] >> (w as u64) == 0 by { assert(d[lo + i] >> (w as u64) == 0); }
+}
+// the payload decoder inverts the payload encoder
+proof fn lemma_dec_enc_payload(d: Seq<u64>, w: int)
+  requires 1 <= w <= 63, fits(d, w)
+  ensures enc_v4_payload(d, w).len() == v4_payload_len(d.len() as int, w), dec_v4_deltas(enc_v4_payload(d, w), w, d.len()) =~= d
+{
+    reveal(dec_v4_delta);
+    let n = d.len() as int; let nb = n / 8; let q = enc_v4_payload(d, w);
+    let blocks = enc_blocks(d, w, nb as nat);
+    let tl = if n % 8 != 0 { packed(d.skip(8 * nb), w) } else { Seq::<u8>::empty() };
+    lemma_enc_blocks_len(d, w, nb as nat);
+    assert(packed_len(0, w) == 0);
+    assert(tl.len() == packed_len(n % 8, w));
+    assert(q =~= blocks + tl);
+    assert forall|j: int| 0 <= j < n implies #[trigger] dec_v4_deltas(q, w, n as nat)[j] == d[j] by {
+        if j < 8 * nb {
+            let b = j / 8;
+            lemma_enc_blocks_sub(d, w, nb as nat, b);
+            let blk = d.subrange(8 * b, 8 * b + 8);
+            assert(q.subrange(w * b, w * b + w) =~= blocks.subrange(w * b, w * b + w));
+            lemma_fits_sub(d, w, 8 * b, 8 * b + 8);
+            lemma_unpack_pack(blk, w, Seq::empty());
+            assert(packed(blk, w) + Seq::<u8>::empty() =~= packed(blk, w));
+            assert(blk[j % 8] == d[j]);
+        } else {
+            let rest = d.skip(8 * nb);
+            assert(q.subrange(w * nb, v4_payload_len(n, w)) =~= tl);
+            lemma_fits_sub(d, w, 8 * nb, n);
+            assert(d.subrange(8 * nb, n) =~= rest);
+            lemma_unpack_pack(rest, w, Seq::empty());
+            assert(packed(rest, w) + Seq::<u8>::empty() =~= packed(rest, w));
+            assert(rest[j - 8 * nb] == d[j]);
+        }
+    }
+}
+// prefix sums of the deltas of a sorted list give the list back
+proof fn lemma_psum_deltas(e: Seq<u64>, k: nat)
+  requires sorted_strict(e), k <= e.len()
+  ensures psum(deltas_of(e), k) == (if k == 0 { 0 } else { e[k - 1] as int })
+  decreases k
+{
+    reveal(sorted_strict);
+    if k > 0 {
+        lemma_psum_deltas(e, (k - 1) as nat);
+        assert(deltas_of(e)[k - 1] == delta_at(e, k - 1));
+    }
+}
+proof fn lemma_le_count_roundtrip(p: Seq<u8>, off: int, n: u32, neb: u8)
+  requires count_fits(n, neb), 0 <= off, off + neb <= p.len(), p.subrange(off, off + neb) == le_count_bytes(n, neb as nat)
+  ensures le_count_val(p, off, neb as nat) == n
+{
+    reveal_with_fuel(le_count_val, 5);
+    let s = le_count_bytes(n, neb as nat);
+    let b0 = ((n >> 0u32) & 0xff) as u8; let b1 = ((n >> 8u32) & 0xff) as u8; let b2 = ((n >> 16u32) & 0xff) as u8; let b3 = ((n >> 24u32) & 0xff) as u8;
+    let sub = p.subrange(off, off + neb);
+    assert(neb >= 1 ==> p[off + 0] == sub[0] && s[0] == b0);
+    assert(neb >= 2 ==> p[off + 1] == sub[1] && s[1] == b1);
+    assert(neb >= 3 ==> p[off + 2] == sub[2] && s[2] == b2);
+    assert(neb >= 4 ==> p[off + 3] == sub[3] && s[3] == b3);
+    assert(n < 256 ==> (0usize | ((b0 as usize) << 0usize)) == n as usize) by (bit_vector) requires b0 == ((n >> 0u32) & 0xff) as u8;
+    assert(n < 65536 ==> ((0usize | ((b0 as usize) << 0usize)) | ((b1 as usize) << 8usize)) == n as usize) by (bit_vector)
+      requires b0 == ((n >> 0u32) & 0xff) as u8, b1 == ((n >> 8u32) & 0xff) as u8;
+    assert(n < 0x100_0000 ==> (((0usize | ((b0 as usize) << 0usize)) | ((b1 as usize) << 8usize)) | ((b2 as usize) << 16usize)) == n as usize) by (bit_vector)
+      requires b0 == ((n >> 0u32) & 0xff) as u8, b1 == ((n >> 8u32) & 0xff) as u8, b2 == ((n >> 16u32) & 0xff) as u8;
+    assert(((((0usize | ((b0 as usize) << 0usize)) | ((b1 as usize) << 8usize)) | ((b2 as usize) << 16usize)) | ((b3 as usize) << 24usize)) == n as usize) by (bit_vector)
+      requires b0 == ((n >> 0u32) & 0xff) as u8, b1 == ((n >> 8u32) & 0xff) as u8, b2 == ((n >> 16u32) & 0xff) as u8, b3 == ((n >> 24u32) & 0xff) as u8;
+}
+// C11 at spec level: every serial-version-4 image of a well-formed, compressible state decodes to that state
+#[verifier::spinoff_prover]
+proof fn lemma_theta_v4_roundtrip(b: Seq<u8>, x: ThetaImg, sh: u16)
+  requires wf_img(x), v4_suitable(x), x.entries.len() <= 0x0fff_ffff, x.seed_hash == sh, is_v4_image(b, x),
+  ensures /*@C11.theta.v4*/ decode_spec(b, sh) == Some(x),
+{
+    reveal(decode_spec); reveal(decode_spec_v4);
+    let w = b[3]; let neb = b[4]; let n = x.entries.len(); let est = x.theta < MAX_THETA_SPEC;
+    let d = deltas_of(x.entries);
+    let hdr = enc_v4_header(x, w, neb); let pay = enc_v4_payload(d, w as int);
+    let p = b.skip(3);
+    let pre: u8 = if est { 2 } else { 1 };
+    let off: int = if est { 13 } else { 5 };
+    lemma_le16_roundtrip(x.seed_hash); lemma_le64_roundtrip(x.theta);
+    assert(le_count_bytes(n as u32, neb as nat).len() == neb);
+    assert(hdr.len() == 3 + off + neb);
+    assert(b[0] == pre && b[1] == 4 && b[2] == 3);
+    assert(p[0] == w && p[1] == neb && p[2] == 26u8);
+    assert(flag_ordered(26u8) && !flag_empty(26u8)) by { assert(26u8 & 16 != 0 && 26u8 & 4 == 0) by (bit_vector); }
+    assert(p.subrange(3, 5) =~= le16_bytes(x.seed_hash));
+    if est { assert(p.subrange(5, 13) =~= le64_bytes(x.theta)); }
+    assert(p.subrange(off, off + neb) =~= le_count_bytes(n as u32, neb as nat));
+    lemma_le_count_roundtrip(p, off, n as u32, neb);
+    assert(p.skip(off + neb) =~= pay);
+    lemma_dec_enc_payload(d, w as int);
+    lemma_psum_deltas(x.entries, n);
+    assert(undelta(d) =~= x.entries) by {
+        assert forall|i: int| 0 <= i < n implies #[trigger] undelta(d)[i] == x.entries[i] by { lemma_psum_deltas(x.entries, (i + 1) as nat); }
     }
 }
 
@@ -908,7 +1115,8 @@ bytes . into_bytes ( ) }
 
     fn serialize_compressed ( & self ) -> ( r : Vec < u8 > ) requires self . wf ( ) , self . entries @ . len ( ) <= 0x0fff_ffff ensures
 /*@C12.theta.compressed_fallback*/ ! v4_suitable ( self . img ( ) ) ==> r @ == enc_theta_v3 ( self . img ( ) ) ,
-/*@C12.theta.compressed_header*/ v4_suitable ( self . img ( ) ) ==> is_v4_image_of ( r @ , self . img ( ) ) , {
+/*@C12.theta.compressed_header*/ v4_suitable ( self . img ( ) ) ==> is_v4_image_of ( r @ , self . img ( ) ) ,
+/*@C12.theta.compressed_payload*/ v4_suitable ( self . img ( ) ) ==> is_v4_image ( r @ , self . img ( ) ) , {
 if self . is_suitable_for_compression ( ) {
 self . serialize_v4 ( ) }
 else {
@@ -988,7 +1196,8 @@ self . entries @ [ i - 1 ] }
 ) , sorted_strict ( self . entries @ ) , bytes @ . len ( ) >= hdr . len ( ) , bytes @ . take ( hdr . len ( ) as int ) == hdr , decreases self . entries @ . len ( ) - i {
 let mut deltas = [ 0u64 ;
 BLOCK_WIDTH ] ;
-for j in 0 .. BLOCK_WIDTH invariant i + BLOCK_WIDTH <= self . entries @ . len ( ) , self . entries @ . len ( ) <= 0x0fff_ffff , deltas @ . len ( ) == 8 , sorted_strict ( self . entries @ ) , d == deltas_of ( self . entries @ ) , forall | t : int | 0 <= t < j ==> deltas @ [ t ] == # [ trigger ] d [ i + t ] , previous == ( if i + j == 0 {
+for j in 0 .. BLOCK_WIDTH invariant i + BLOCK_WIDTH <= self . entries @ . len ( ) , self . entries @ . len ( ) <= 0x0fff_ffff , deltas @ . len ( ) == 8 , sorted_strict ( self . entries @ ) , d == deltas_of ( self . entries @ ) , 
+/*@C12.theta.v4_payload*/ forall | t : int | 0 <= t < j ==> deltas @ [ t ] == # [ trigger ] d [ i + t ] , previous == ( if i + j == 0 {
 0u64 }
 else {
 self . entries @ [ i + j - 1 ] }
@@ -1056,13 +1265,15 @@ assert ( ( before + block @ . subrange ( 0 , bytes_used as int ) ) . take ( hdr 
 assert ( d . subrange ( i0 as int , i as int ) =~= d . skip ( i0 as int ) ) ;
 assert ( block @ . subrange ( 0 , bytes_used as int ) =~= block @ . take ( bytes_used as int ) ) ;
 assert ( i0 == 8 * ( d . len ( ) / 8 ) && d . len ( ) % 8 != 0 ) ;
-assert ( bytes @ =~= hdr + enc_v4_payload ( d , w ) ) ;
+assert (
+/*@C12.theta.v4_payload*/ bytes @ =~= hdr + enc_v4_payload ( d , w ) ) ;
 }
 }
 else {
 proof {
 assert ( i == 8 * ( d . len ( ) / 8 ) && d . len ( ) % 8 == 0 ) ;
-assert ( bytes @ =~= hdr + enc_v4_payload ( d , w ) ) ;
+assert (
+/*@C12.theta.v4_payload*/ bytes @ =~= hdr + enc_v4_payload ( d , w ) ) ;
 }
 }
 proof {
@@ -1195,8 +1406,9 @@ vx_ensure_pre_longs ( Family :: THETA . min_pre_longs , Family :: THETA . max_pr
 proof {
 assert ( bytes @ . skip ( 1 ) . skip ( 1 ) . skip ( 1 ) =~= bytes @ . skip ( 3 ) ) ;
 }
+let ghost p0 = cursor . rem ( ) ;
 match ser_ver {
-1 => Self :: deserialize_v1 ( cursor , seed ) , 2 => Self :: deserialize_v2 ( pre_longs , cursor , seed ) , 3 => Self :: deserialize_v3 ( pre_longs , cursor , seed ) , 4 => Self :: deserialize_v4 ( pre_longs , cursor , seed ) , _ => Err ( vx_err_deserial_fmt ( ) ) , }
+1 => Self :: deserialize_v1 ( cursor , seed ) , 2 => Self :: deserialize_v2 ( pre_longs , cursor , seed ) , 3 => Self :: deserialize_v3 ( pre_longs , cursor , seed ) , 4 => Self :: deserialize_v4 ( pre_longs , cursor , seed , Ghost ( p0 ) ) , _ => Err ( vx_err_deserial_fmt ( ) ) , }
 }
 
 
@@ -1342,11 +1554,10 @@ entries , theta , seed_hash , ordered , empty , }
 
 
     #[verifier::spinoff_prover]   // fresh z3 per function: the shared prover slows down badly after the expected failures
-    // the three loops with an early exit are not isolated: they need p = the cursor handed in (a by-value `mut` parameter has no old())
-    fn deserialize_v4 ( pre_longs : u8 , mut cursor : SketchSlice < '_ > , expected_seed : u64 , ) -> ( r : Result < Self , Error > ) ensures
-/*@C13.theta.v4_payload*/ decode_spec_v4 ( cursor . rem ( ) , pre_longs , seed_hash_of ( expected_seed ) ) matches Some ( x ) ==> ( r matches Ok ( s ) && s . img ( ) == x ) ,
+    // Ghost(p): the bytes of the cursor handed in; a by-value `mut` parameter has no old(), and the loops (verified in isolation) must name it
+    fn deserialize_v4 ( pre_longs : u8 , mut cursor : SketchSlice < '_ > , expected_seed : u64 , Ghost ( p ) : Ghost < Seq < u8 > > , ) -> ( r : Result < Self , Error > ) requires p == cursor . rem ( ) , ensures
+/*@C13.theta.v4_payload*/ decode_spec_v4 ( p , pre_longs , seed_hash_of ( expected_seed ) ) matches Some ( x ) ==> ( r matches Ok ( s ) && s . img ( ) == x ) ,
 /*@C14.theta_v4.total*/ r matches Ok ( s ) ==> all_valid ( s . entries @ , s . theta ) , {
-let ghost p = cursor . rem ( ) ;
 let ghost spec = decode_spec_v4 ( p , pre_longs , seed_hash_of ( expected_seed ) ) ;
 proof {
 lemma_dec_v4_some ( p , pre_longs , seed_hash_of ( expected_seed ) ) ;
@@ -1379,7 +1590,7 @@ assert ( p . skip ( 5 ) . skip ( 8 ) =~= p . skip ( 13 ) ) ;
 }
 }
 let mut num_entries = 0usize ;
-# [ verifier :: loop_isolation ( false ) ] for i in 0 .. num_entries_bytes invariant p . len ( ) >= off + i , cursor . rem ( ) == p . skip ( off + i ) ,
+for i in 0 .. num_entries_bytes invariant p . len ( ) >= off + i , cursor . rem ( ) == p . skip ( off + i ) , off == ( if pre_longs > 1 { 13int } else { 5int } ) , spec == decode_spec_v4 ( p , pre_longs , seed_hash_of ( expected_seed ) ) , spec is Some ==> 1 <= pre_longs <= 2 && p . len ( ) >= 5 && num_entries_bytes == p [ 1 ] && p . len ( ) >= off + num_entries_bytes ,
 /*@C13.theta.v4_payload*/ num_entries == le_count_val ( p , off , i as nat ) , {
 let entry_count_byte = cursor . read_u8 ( ) . vx_io ( "num_entries_byte" ) ? ;
 assert (
@@ -1401,31 +1612,26 @@ proof {
 assert ( w * 0 == 0 ) ;
 assert ( q . skip ( 0 ) =~= q ) ;
 }
-# [ verifier :: loop_isolation ( false ) ] while i + BLOCK_WIDTH <= num_entries invariant entries @ . len ( ) == num_entries , i <= num_entries , i % 8 == 0 , 8 * num_entries <= 0x7fff_ffff_ffff_ffff , w == entry_bits as int , okw == ( 1 <= entry_bits <= 63 ) , d == dec_v4_deltas ( q , w , num_entries as nat ) , spec == decode_spec_v4 ( p , pre_longs , seed_hash_of ( expected_seed ) ) , spec is Some ==> okw && q == p . skip ( off + num_entries_bytes ) && p . len ( ) >= off + num_entries_bytes && q . len ( ) >= v4_payload_len ( num_entries as int , w ) && num_entries == le_count_val ( p , off , num_entries_bytes as nat ) && off == ( if pre_longs == 2 { 13int } else { 5int } ) && p . len ( ) >= 5 && entry_bits == p [ 0 ] && num_entries_bytes == p [ 1 ] , w * ( i / 8 ) <= q . len ( ) , cursor . rem ( ) == q . skip ( w * ( i / 8 ) ) ,
+while i + BLOCK_WIDTH <= num_entries invariant entries @ . len ( ) == num_entries , i <= num_entries , i % 8 == 0 , 8 * num_entries <= 0x7fff_ffff_ffff_ffff , w == entry_bits as int , okw == ( 1 <= entry_bits <= 63 ) , d == dec_v4_deltas ( q , w , num_entries as nat ) , spec == decode_spec_v4 ( p , pre_longs , seed_hash_of ( expected_seed ) ) , spec is Some ==> okw && q == p . skip ( off + num_entries_bytes ) && p . len ( ) >= off + num_entries_bytes && q . len ( ) >= v4_payload_len ( num_entries as int , w ) && num_entries == le_count_val ( p , off , num_entries_bytes as nat ) && off == ( if pre_longs == 2 { 13int } else { 5int } ) && p . len ( ) >= 5 && entry_bits == p [ 0 ] && num_entries_bytes == p [ 1 ] , w * ( i / 8 ) <= q . len ( ) , cursor . rem ( ) == q . skip ( w * ( i / 8 ) ) ,
 /*@C13.theta.v4_payload*/ okw ==> forall | j : int | 0 <= j < i ==> entries @ [ j ] == # [ trigger ] d [ j ] , decreases num_entries - i {
 proof {
-let b = ( i / 8 ) as int ;
-let nb = ( num_entries / 8 ) as int ;
-assert ( b + 1 <= nb ) ;
-assert ( w * b + w == w * ( b + 1 ) ) by ( nonlinear_arith ) ;
-assert ( w * ( b + 1 ) <= w * nb ) by ( nonlinear_arith ) requires b + 1 <= nb , 0 <= w ;
-assert ( packed_len ( ( num_entries % 8 ) as int , w ) >= 0 ) by ( nonlinear_arith ) requires 0 <= w , 0 <= num_entries % 8 , packed_len ( ( num_entries % 8 ) as int , w ) == ( ( num_entries % 8 ) * w + 7 ) / 8 ;
-assert ( ( i + 8 ) / 8 == b + 1 ) ;
+if cursor . rem ( ) . len ( ) < w {
+lemma_v4_block_short ( q , w , num_entries as int , i as int ) ;
+}
+else {
+lemma_v4_block_step ( q , w , num_entries as int , i as int ) ;
+}
 }
 let mut block = vx_zeroed_u8 ( entry_bits as usize , Ghost ( cursor . rem ( ) . len ( ) as int ) ) ;
 cursor . read_exact ( & mut block ) . vx_io ( "delta_block" ) ? ;
 let ghost before = entries @ ;
 vx_unpack_block_at ( & mut entries , i , i + BLOCK_WIDTH , & block , entry_bits ) ;
 proof {
-let b = ( i / 8 ) as int ;
-assert ( block @ =~= q . subrange ( w * b , w * b + w ) ) ;
 assert ( block @ . take ( w ) =~= block @ ) ;
-assert ( q . skip ( w * b ) . skip ( w ) =~= q . skip ( w * ( b + 1 ) ) ) ;
 if okw {
 assert forall | j : int | 0 <= j < i + 8 implies entries @ [ j ] == # [ trigger ] d [ j ] by {
 if j >= i {
 assert ( entries @ [ j ] == entries @ . subrange ( i as int , i + 8 ) [ j - i ] ) ;
-assert ( j / 8 == b && j % 8 == j - i && j < 8 * ( num_entries / 8 ) ) ;
 assert ( d [ j ] == dec_v4_delta ( q , w , num_entries as int , j ) ) ;
 }
 else {
@@ -1447,14 +1653,12 @@ let bytes_needed = ( rem * entry_bits as usize ) . div_ceil ( 8 ) ;
 let mut tail = vx_zeroed_u8 ( bytes_needed , Ghost ( cursor . rem ( ) . len ( ) as int ) ) ;
 proof {
 assert ( bytes_needed == packed_len ( rem as int , w ) ) ;
+lemma_v4_tail ( q , w , num_entries as int ) ;
 }
 cursor . read_exact ( & mut tail ) . vx_io ( "delta_tail" ) ? ;
-proof {
-assert ( tail @ =~= q . subrange ( w * ( num_entries / 8 ) , v4_payload_len ( num_entries as int , w ) ) ) ;
-}
 let mut unpacker = BitUnpacker :: new ( & tail ) ;
 let mut vx_k = i ;
-while vx_k < num_entries invariant i <= vx_k <= num_entries , entries @ . len ( ) == num_entries , rem == num_entries - i , rem < 8 , i == 8 * ( num_entries / 8 ) , rem == num_entries % 8 , unpacker . byte_bit_used < 8 , unpacker . bitpos ( ) == ( vx_k - i ) * entry_bits , unpacker . bytes @ . len ( ) == bytes_needed , 8 * bytes_needed >= rem * entry_bits , w == entry_bits as int , okw == ( 1 <= entry_bits <= 63 ) , d == dec_v4_deltas ( q , w , num_entries as nat ) , unpacker . bytes @ == q . subrange ( w * ( num_entries / 8 ) , v4_payload_len ( num_entries as int , w ) ) ,
+while vx_k < num_entries invariant i <= vx_k <= num_entries , entries @ . len ( ) == num_entries , rem == num_entries - i , rem < 8 , i == 8 * ( num_entries / 8 ) , rem == num_entries % 8 , unpacker . byte_bit_used < 8 , unpacker . bitpos ( ) == ( vx_k - i ) * entry_bits , unpacker . bytes @ . len ( ) == bytes_needed , 8 * bytes_needed >= rem * entry_bits , w == entry_bits as int , okw == ( 1 <= entry_bits <= 63 ) , d == dec_v4_deltas ( q , w , num_entries as nat ) , forall | j : int | 8 * ( num_entries / 8 ) <= j < num_entries ==> # [ trigger ] dec_v4_delta ( q , w , num_entries as int , j ) == stream_val ( unpacker . bytes @ , ( j - 8 * ( num_entries / 8 ) ) * w , w ) ,
 /*@C13.theta.v4_payload*/ okw ==> forall | j : int | 0 <= j < vx_k ==> entries @ [ j ] == # [ trigger ] d [ j ] , decreases num_entries - vx_k {
 proof {
 lemma_mul_le ( vx_k - i + 1 , rem as int , entry_bits as int ) ;
@@ -1466,7 +1670,6 @@ proof {
 if okw {
 let t = vx_k - i ;
 assert ( d [ vx_k as int ] == dec_v4_delta ( q , w , num_entries as int , vx_k as int ) ) ;
-assert ( unpacked ( unpacker . bytes @ , w , rem as nat ) [ t ] == stream_val ( unpacker . bytes @ , t * w , w ) ) ;
 assert forall | j : int | 0 <= j < vx_k + 1 implies entries @ [ j ] == # [ trigger ] d [ j ] by {
 if j < vx_k {
 assert ( entries @ [ j ] == before [ j ] ) ;
@@ -1478,33 +1681,38 @@ vx_k += 1 ;
 }
 }
 proof {
-assert ( i + 8 > num_entries && i % 8 == 0 ==> i == 8 * ( num_entries / 8 ) ) ;
+if okw {
+lemma_undelta_init ( entries @ , d ) ;
+}
 }
 let mut previous = 0 ;
 let mut vx_i2 = 0 ;
-# [ verifier :: loop_isolation ( false ) ] while vx_i2 < entries . len ( ) invariant vx_i2 <= entries @ . len ( ) , entries @ . len ( ) == num_entries , forall | j : int | 0 <= j < vx_i2 ==> valid_hash ( # [ trigger ] entries @ [ j ] , theta ) , d == dec_v4_deltas ( q , w , num_entries as nat ) , spec == decode_spec_v4 ( p , pre_longs , seed_hash_of ( expected_seed ) ) , spec is Some ==> okw && psum ( d , num_entries as nat ) <= u64 :: MAX && all_valid ( undelta ( d ) , theta ) ,
-/*@C13.theta.v4_payload*/ okw ==> previous == psum ( d , vx_i2 as nat ) && ( forall | j : int | vx_i2 <= j < num_entries ==> entries @ [ j ] == # [ trigger ] d [ j ] ) && ( forall | j : int | 0 <= j < vx_i2 ==> # [ trigger ] entries @ [ j ] == psum ( d , ( j + 1 ) as nat ) ) , decreases entries @ . len ( ) - vx_i2 {
+while vx_i2 < entries . len ( ) invariant vx_i2 <= entries @ . len ( ) , entries @ . len ( ) == num_entries , forall | j : int | 0 <= j < vx_i2 ==> valid_hash ( # [ trigger ] entries @ [ j ] , theta ) , spec == decode_spec_v4 ( p , pre_longs , seed_hash_of ( expected_seed ) ) , spec is Some ==> okw && all_valid ( undelta ( d ) , theta ) , d . len ( ) == num_entries ,
+/*@C13.theta.v4_payload*/ okw ==> previous == psum ( d , vx_i2 as nat ) && undelta_state ( entries @ , d , vx_i2 as int ) , decreases entries @ . len ( ) - vx_i2 {
 let ghost before = entries @ ;
 let e = & mut entries [ vx_i2 ] ;
 assert (
 /*@C14.theta_v4.delta_overflow*/ * e + previous <= u64 :: MAX ) ;
-* e += previous ;
-previous = * e ;
 proof {
 if okw {
-assert ( previous == psum ( d , ( vx_i2 + 1 ) as nat ) ) ;
-assert ( undelta ( d ) [ vx_i2 as int ] == previous ) ;
+lemma_undelta_step ( before , before . update ( vx_i2 as int , ( before [ vx_i2 as int ] + previous ) as u64 ) , d , vx_i2 as int , previous ) ;
 }
 }
+* e += previous ;
+previous = * e ;
 if * e == 0 || * e >= theta {
 return Err ( Error :: deserial ( "corrupted: invalid retained hash value" ) ) ;
+}
+proof {
+assert (
+/*@C13.theta.v4_payload*/ entries @ =~= before . update ( vx_i2 as int , previous ) ) ;
 }
 vx_i2 += 1 ;
 }
 let ordered = ( flags & FLAGS_IS_ORDERED ) != 0 ;
 proof {
-if spec is Some {
-assert ( entries @ =~= undelta ( d ) ) ;
+if okw {
+lemma_undelta_done ( entries @ , d ) ;
 }
 }
 Ok ( Self {
@@ -1529,5 +1737,20 @@ fn c11_roundtrip_theta(a: &CompactThetaSketch, seed: u64) -> (b: CompactThetaSke
     }
 }
 #[verifier::external_body] fn c11_unreachable() -> CompactThetaSketch requires false { unreachable!() }
+// the same through serialize_compressed: serial version 4 when the sketch is ordered and worth compressing, version 3 otherwise
+fn c11_roundtrip_theta_compressed(a: &CompactThetaSketch, seed: u64) -> (b: CompactThetaSketch)
+  requires a.wf(), a.entries@.len() <= 0x0fff_ffff, a.seed_hash == seed_hash_of(seed),
+  ensures /*@C11.theta.v4_roundtrip*/ b.img() == a.img(),
+{
+    let img = a.serialize_compressed();
+    proof {
+        if v4_suitable(a.img()) { lemma_theta_v4_roundtrip(img@, a.img(), seed_hash_of(seed)); }
+        else { lemma_theta_v3_roundtrip(a.img(), seed_hash_of(seed)); }
+    }
+    match CompactThetaSketch::deserialize_with_seed(img.as_slice(), seed) {
+        Ok(b) => b,
+        Err(_) => { proof { assert(false); } c11_unreachable() }
+    }
+}
 }
 fn main(){}
